@@ -23,12 +23,13 @@ RULE = ('programs from the typed generator (3-4 intermediate concrete predicates
         'E(y, x)}, ~E(x, x)`, sibling scopes re-using one local name), called twice in a rule, '
         'nested (F(F(1)), the output of one call feeding the next, through an injected '
         'intermediate predicate), with caller variables named like the callee\'s parameters '
-        'and locals; per program 6 assignments of {none, @NoInject, @With, @NoWith, '
+        'and locals; per program 5 assignments of {none, @NoInject, @With, @NoWith, '
         '@NoInject+@NoWith, @NoInject+@With, @Ground} to every concrete predicate (always '
-        'all-none, all-@NoInject, all-@Ground, then drawn mixes).  Under every assignment '
+        'all-none, all-@NoInject, all-@Ground, then two drawn mixes).  Under every assignment '
         'every intensional predicate is compiled from a fresh program object and run on '
-        'SQLite, and additionally all of them are compiled one after another from ONE '
-        'program object in a drawn order (history) and run; every result is compared with '
+        'SQLite, and (all-none and the mixes) additionally all of them are compiled one '
+        'after another from ONE program object in a drawn order, sometimes one of them '
+        'twice (history) and run; every result is compared with '
         'the reference evaluator, in which a call to an injectible predicate is its body with '
         'the arguments substituted.  One evaluation = (annotated text, predicate) fresh, or '
         '(annotated text, order) for a history.  Non-trivial = the SQL text differs from the '
@@ -50,7 +51,8 @@ OPTS = dict(p_colnames=0.0, p_neg=0.2, p_agg=0.25, p_distinct=0.3, p_null_fact=0
             p_call_idb=0.2)
 CHOICES = ((), ('@NoInject',), ('@With',), ('@NoWith',), ('@NoInject', '@NoWith'),
            ('@NoInject', '@With'), ('@Ground',))
-N_ASSIGNMENTS = 6
+N_ASSIGNMENTS = 5
+HISTORY_FOR = ('none', 'mix')        # assignments whose predicates are also compiled as a history
 
 
 def assignments(prog, rng, k=N_ASSIGNMENTS):
@@ -81,7 +83,38 @@ def references(prog, preds):
     return {p: common.reference(prog, p)[:3] for p in preds}
 
 
-def check_assignment(prog, asg, refs=None, preds=None):
+class Splicer(object):
+    """The parse of an annotated text = parse of the annotation lines spliced into the
+    parse of the program (one real parse per program instead of one per assignment; the
+    first programs of every shard verify the splice against the real parse)."""
+
+    def __init__(self, verify=3):
+        self.verify = verify
+        self.key = None
+
+    def rules(self, prog, asg, text):
+        base_text = model.print_program(prog)
+        if self.key != base_text:
+            self.key = base_text
+            self.base = drive.parse_rules(base_text)
+            if self.verify > 0:
+                self.verify -= 1
+                self.checking = True
+            else:
+                self.checking = False
+        n0 = 1 + len(prog.get('ann', []))
+        lines = ['%s(%s);' % (a, pred) for pred in sorted(asg) for a in asg[pred]]
+        mid = drive.parse_rules('\n'.join(lines) + '\n') if lines else []
+        rules = self.base[:n0] + mid + self.base[n0:]     # consumers deep-copy
+        if self.checking:
+            import json
+            dump = lambda rs: json.dumps(rs, sort_keys=True, default=str)
+            if dump(drive.parse_rules(text)) != dump(rules):
+                raise AssertionError('spliced parse differs from the real parse')
+        return rules
+
+
+def check_assignment(prog, asg, refs=None, preds=None, splicer=None):
     """Fresh program object per predicate.  -> ([(status, bucket, detail, pred, sql, n)],
     text, rules)."""
     res = []
@@ -90,7 +123,9 @@ def check_assignment(prog, asg, refs=None, preds=None):
     preds = targets(prog) if preds is None else preds
     refs = refs if refs is not None else references(prog, preds)
     try:
-        rules = drive.parse_rules(text)
+        rules = splicer.rules(prog, asg, text) if splicer else drive.parse_rules(text)
+    except AssertionError:
+        raise
     except Exception:
         rules = None
     for pred in preds:
@@ -186,6 +221,7 @@ def inj_features(prog):
 
 def shard(ctx, col):
     drive.enable_library_cache()
+    splicer = Splicer()
 
     def one(rng):
         prog = gen.gen_program(rng, **OPTS)
@@ -199,7 +235,7 @@ def shard(ctx, col):
         refs = references(prog, preds)
         base = {}
         for name, asg in assignments(prog, rng):
-            res, text, rules = check_assignment(prog, asg, refs, preds)
+            res, text, rules = check_assignment(prog, asg, refs, preds, splicer)
             used = sorted(set(a for v in asg.values() for a in v))
             jasg = {k: list(v) for k, v in asg.items()}
             for st, bucket, detail, pred, sql, n in res:
@@ -220,6 +256,8 @@ def shard(ctx, col):
                     col.case((text, pred), False, labels + ['failed'])
                     col.fail(bucket, {'prog': model.prog_to_json(prog), 'asg': jasg,
                                       'pred': pred}, detail)
+            if name not in HISTORY_FOR:
+                continue
             # history: one program object, drawn order
             order = list(preds)
             rng.shuffle(order)
